@@ -399,7 +399,10 @@ class Rule(MethodMeek):
             #
             if C.hopeful():
                 low_vote = V.min([c.vote for c in C.hopeful()])
-                low_candidates = [c for c in C.hopeful() if (low_vote + E.surplus) >= c.vote]
+                #  (truncated keep factors can leave the total surplus below zero;
+                #   a negative surplus must not exclude the low candidate itself)
+                surplus = V0 if E.surplus < V0 else E.surplus
+                low_candidates = [c for c in C.hopeful() if (low_vote + surplus) >= c.vote]
                 low_candidate = breakTie(E, low_candidates, 'defeat')
                 if iterationStatus == IS_omega:
                     low_candidate.defeat(msg='Defeat (surplus %s < omega)' % E.surplus)
